@@ -300,7 +300,7 @@ def run(ctx):
   setup(ctx)
   quick = ctx.tier == "quick"
   corpus = load_corpus()
-  cases = corpus + gen_cases(ctx, 60 if quick else 600, 30 if quick else 300)
+  cases = corpus + gen_cases(ctx, 60 if quick else 480, 30 if quick else 240)
   ctx.log("%d cases (%d from corpus)" % (len(cases), len(corpus)))
   results = run_impl(cases)
   ctx.log("implementation done")
